@@ -256,6 +256,18 @@ def _memo_key(which, pr):
     return json.dumps(pr)
 
 
+def tree_has_float(tree):
+    """does the built tree hold a float constant (anywhere)?"""
+    import dataclasses
+    if isinstance(tree, float):
+        return True
+    if isinstance(tree, (tuple, list)):
+        return any(tree_has_float(c) for c in tree)
+    if isinstance(tree, p.Expression) and dataclasses.is_dataclass(tree):
+        return any(tree_has_float(getattr(tree, f.name)) for f in dataclasses.fields(tree))
+    return False
+
+
 def value_oracle(pr, top=True):
     """evaluate(tree) == the same lambda on numbers, in every env where the latter is defined."""
     from pymbolic.mapper.evaluator import EvaluationMapper
@@ -312,6 +324,12 @@ def value_oracle(pr, top=True):
                     ok = bool(exact == got)
             except Exception:
                 ok = True
+        if not ok and isinstance(got, TypeError) and not has_float_leaf(pr) and tree_has_float(tree):
+            # construction-time arithmetic on two plain ints left the exact domain (`-1 / 1` is the
+            # FLOAT -1.0 in Python, where the same step on the environment's Fractions stays a
+            # Fraction): equal in value, but `>>`, `<<`, `&`, `|`, `^`, `~` reject a float.  Floats
+            # are outside the exact fragment the value claim is about: no verdict.
+            continue
         if not ok:
             shown = {k: v for k, v in env.items() if k in "xyz"}
             # a known fold below may leave an == value of another TYPE (x // True -> x keeps a
